@@ -902,6 +902,16 @@ func (fc *FuncCtx) specBuiltin(st *State, name string, argEs []*SExpr, sc *specC
 	case "strbytes":
 		a := arg(0)
 		return Val{T: App("str$bytes", SliceOf(SInt), a.T), Typ: types.NewSlice(types.Typ[types.Uint8])}, true
+	case "min", "max":
+		if len(argEs) == 2 {
+			a, b := arg(0), arg(1)
+			if a.T != nil && b.T != nil && a.T.Sort.Kind == "Int" && b.T.Sort.Kind == "Int" {
+				if name == "min" {
+					return Val{T: Ite(Le(a.T, b.T), a.T, b.T), Typ: tInt}, true
+				}
+				return Val{T: Ite(Ge(a.T, b.T), a.T, b.T), Typ: tInt}, true
+			}
+		}
 	case "bvor64", "bvand64", "bvxor64":
 		// the (uninterpreted) wide bitwise operators of the executable model, so that trusted bit facts can be stated
 		a, b := arg(0), arg(1)
